@@ -365,3 +365,9 @@ impl<K: std::hash::Hash + Eq + Clone> Lru<K> {
         *region = new_region;
     }
 }
+
+#[cfg(any(kani, qbice_verif))]
+#[allow(dead_code, unused_imports, missing_docs, clippy::all, clippy::pedantic)]
+mod verif_hook {
+    include!(concat!(env!("QBICE_VERIF_DIR"), "/hooks/storage_tiny_lfu_lru.rs"));
+}
